@@ -642,6 +642,28 @@ def make_rmrace_workload(seed):
     find the key gone under the lock and leave without touching the node; values inline
     (pointer-sized, the slot is not reset by a remove) or out-of-line"""
     r = random.Random("rmrace/%d" % seed)
+    if r.random() < 0.25:
+        # an emptied tree (the deleted empty root border stays): several sessions insert the same
+        # new key (unique and not), or long keys sharing a new prefix, at once
+        lines = ["storage 61", "bg 0"]
+        for k in [b"k1", b"k2"]:
+            lines.append("pre put %s %s" % (hx(k), hx(b"p" + k)))
+        for k in [b"k1", b"k2"]:
+            lines.append("pre remove %s" % hx(k))
+        hot = r.choice([[b"n1"], [b"n1", b"n2"], [b"prefix__a", b"prefix__b"]])
+        nthreads = r.choice([2, 3])
+        for t in range(nthreads):
+            lines.append("thread %d" % t)
+            for i in range(r.choice([1, 2])):
+                k = r.choice(hot)
+                x = r.random()
+                if x < 0.7:
+                    lines.append("op put %s %s %d" % (hx(k), hx(b"%dn%d" % (t, i)), 1 if r.random() < 0.6 else 0))
+                elif x < 0.85:
+                    lines.append("op get %s" % hx(k))
+                else:
+                    lines.append("op remove %s" % hx(k))
+        return "\n".join(lines) + "\n", {}, {"shape": "rmrace/emptied", "threads": nthreads, "kind": "rmrace"}
     shape = r.choice(["single", "single", "full", "two_level", "eight"])
     keys = shape_keys(r, shape)
     if shape == "full":
@@ -663,15 +685,15 @@ def make_rmrace_workload(seed):
         for i in range(r.choice([1, 2, 3])):
             k = r.choice(hot)
             x = r.random()
-            if x < 0.6:
+            if x < 0.5:
                 lines.append("op remove %s" % hx(k))
-            elif x < 0.85:
+            elif x < 0.7:
                 if inline:
                     lines.append("op puti %s %x" % (hx(k), 0x2000 + 64 * t + i))
                 else:
                     lines.append("op put %s %s 0" % (hx(k), hx(b"%dv%d" % (t, i))))
             else:
-                lines.append("op get %s" % hx(k))
+                lines.append("op %s %s" % ("geti" if inline else "get", hx(k)))
     return "\n".join(lines) + "\n", pre, {"shape": "rmrace/" + shape, "threads": nthreads, "kind": "rmrace"}
 
 
